@@ -45,6 +45,14 @@ CHECKS.update({
          'Generated-input exploration against an independent encoder plus exhaustive per-case gap enumeration for the evolvability rules; thousands (quick) to >10^5 (thorough) model/value pairs.',
          'Trusts the independent encoder in pbt/checks/c08_tlv_model.py; field defaults None; map keys uint/text.', '6/C08'),
 })
+CHECKS.update({
+ 'C11': ('Hypothesis-generated LVS schema ASTs rendered to text, each probed with ALL names of length 0..4 over its literal alphabet; oracle: independent reference LVS interpreter (set of (rule, bindings) equal), direct and after save()/load()',
+         'Generated schemas x exhaustive bounded name enumeration against a reference interpreter written from the language documentation; hundreds (quick) to >10^4 (thorough) schemas x ~2800 names each.',
+         'Trusts pbt/refs/lvs_ref.py; schemas whose expansion exceeds 64 chains / 500 items are discarded (counted).', '6/C11'),
+ 'C12': ('Hypothesis-generated signing-biased LVS schemas, all (packet,key) pairs over matching names plus a sample of non-matching ones; oracle: reference signing relation, both directions, direct and after save()/load()',
+         'Generated schemas x near-exhaustive pair enumeration against the reference signing relation; hundreds (quick) to >10^4 (thorough) schemas x up to ~9000 pairs.',
+         'Trusts pbt/refs/lvs_ref.py (can_sign).', '6/C12'),
+})
 NOT_YET = {}
 def main():
     props = [json.loads(l) for l in open(os.path.join(ROOT, 'properties.jsonl'))]
